@@ -18,7 +18,9 @@ def fp_value(v, depth=0):
     if v is None or isinstance(v, (bool, int, str)):
         if type(v) not in (bool, int, str, type(None)):
             v = int(v) if isinstance(v, int) else str.__str__(v)      # instances of user subclasses: plain data in the fingerprint
-        return [tn, v if not isinstance(v, int) or abs(v) < 2**53 else str(v)]
+        if isinstance(v, int) and abs(v) >= 2**53:
+            return [tn, hex(v) if abs(v) >= 10**400 else str(v)]      # no decimal digit limit on hex()
+        return [tn, v]
     if isinstance(v, float):
         return [tn, repr(v)]
     if isinstance(v, (bytes, bytearray)):
@@ -50,7 +52,13 @@ def fp_value(v, depth=0):
         # e.g. pane.types.ValueOrList: its repr embeds the repr of a possibly set-valued payload,
         # whose order depends on PYTHONHASHSEED - fingerprint the attributes structurally instead
         return ['obj:' + tn, [[k, fp_value(x, depth + 1)] for (k, x) in sorted(d.items())]]
-    return [tn, mask(repr(v))]
+    import fractions
+    if isinstance(v, fractions.Fraction) and max(abs(v.numerator), v.denominator) >= 10**400:
+        return [tn, hex(v.numerator), hex(v.denominator)]
+    try:
+        return [tn, mask(repr(v))]
+    except ValueError as e:      # e.g. the interpreter's int -> str digit limit inside a repr
+        return [tn, '<repr failed: ' + mask(str(e))[:80] + '>']
 
 
 def fp_outcome(fn):
